@@ -64,3 +64,19 @@ package symbols
 //@   requires [this] this != nil
 //@   ensures [value] result == this.typeMap
 //@   assigns nothing
+//@
+//@ func (*Symbols).NumNTSymbols
+//@   prop C02 C10
+//@   requires [this] this != nil
+//@   ensures [value] result == len(this.ntTypeMap)
+//@   assigns nothing
+//@ func (*Symbols).NTList
+//@   prop C02 C10
+//@   requires [this] this != nil
+//@   ensures [value] result == this.ntTypeMap
+//@   assigns nothing
+//@ func (*Symbols).NTType
+//@   prop C02 C10
+//@   requires [this] this != nil
+//@   ensures [value] result == ite(has(this.ntIdMap, symbol), this.ntIdMap[symbol], -1)
+//@   assigns nothing
